@@ -270,6 +270,10 @@ func EncodeMap(fc *p9p.Fcall) ([]byte, []LenField, error) {
 	return e.b, e.fields, nil
 }
 
+// TypeOf is the wire type byte of a message value according to the manual's numbering
+// (independent of the library's own Type() methods).
+func TypeOf(m p9p.Message) (uint8, error) { return typeOf(m) }
+
 func typeOf(m p9p.Message) (uint8, error) {
 	switch m.(type) {
 	case p9p.MessageTversion:
